@@ -40,6 +40,9 @@ def ann_json(t, path=''):
         e = {'prim': t[2]}
     if t[1]:
         e['annots'] = ['%' + t[1]]
+    elif TYPE_ANNOTS[0] == 'bare':
+        if path:
+            e['annots'] = ['%']       # the empty field annotation: same as none (it names no entrypoint)
     elif TYPE_ANNOTS[0]:
         e['annots'] = [':' + ('b' if path.endswith('l') else 'default' if path else 'a')]
     return e
@@ -274,7 +277,19 @@ def check_join(ctx, tc, e, a, full, best):
     if got != full:
         ctx.mismatch('C13:from_parameters:%s:wrong-value%s' % (kind, coll), 'parameter %s: from_parameters(%r, %s) gave %s; Tezos: %s' % (michelson(T), e_py, a, got, full), case)
         return False
-    return decompose(ctx, tc, obj, full, best, 'join', case) is not None
+    params = decompose(ctx, tc, obj, full, best, 'join', case)
+    if params is None:
+        return False
+    # a pair that addresses an annotated *leaf* comes back literally (no deeper name exists that could be preferred); for inner nodes only the
+    # denoted value is compared, since (admin, Left 5) and (set, 5) denote the same thing
+    if tc.etype[e][0] == 'leaf' and kind == 'branch' and not tc.collision:
+        want = {'entrypoint': e_py, 'value': terms.value_json(plain(tc.etype[e]), a)}
+        got_pair = {'entrypoint': params.get('entrypoint'), 'value': params.get('value')}
+        if got_pair != want:
+            ctx.mismatch('C13:pair-roundtrip:leaf-entrypoint%s' % coll, 'parameter %s: the pair (%s, %s) builds %s, which converts back to the pair %s' % (
+                michelson(T), e_py, a, full, got_pair), case)
+            return False
+    return True
 
 
 def run_family(ctx, name, depth, names, rots, timeout, type_annots=False):
@@ -335,15 +350,17 @@ def run(ctx):
     ctx.assumptions = ['types with a repeated entrypoint name are ill-formed in Tezos and are not in the universe',
                        'the name listed for the whole parameter is asserted only when Tezos fixes it (root unannotated or %default, no branch named default: `default`); '
                        'otherwise the one listed name that is not a branch is taken to be the whole parameter',
-                       'to_parameters may pick any listed entrypoint whose pair denotes the value (the model picks the deepest); only the denoted full value is compared',
+                       'for a full value, to_parameters may pick any listed entrypoint whose pair denotes the value (the model picks the deepest); only the denoted full value is compared - except that a pair addressing an annotated leaf must come back as that very pair (the literal reading of the round trip, which is satisfiable exactly for leaves)',
                        'leaf values: int {-1, 5}, string {"", "x"}, unit',
                        'in some families every node without field annotation is given a type annotation (:a, :b, :default) when the type is handed to pytezos; '
-                       'type annotations do not name entrypoints, so the model is unchanged']
+                       'type annotations do not name entrypoints, so the model is unchanged; in one family they get the empty field annotation % instead, which names no entrypoint either']
     n = 0
     if ctx.quick:
         n += run_family(ctx, 'ME_d2', 2, ['a', 'b', 'default'], [0], 600)
         n += run_family(ctx, 'ME_d1_root', 1, ['a', 'default', 'root'], [1], 600, type_annots=True)
+        n += run_family(ctx, 'ME_d2_bare', 2, ['a', 'b'], [0], 600, type_annots='bare')
     else:
+        n += run_family(ctx, 'ME_d2_bare', 2, ['a', 'b', 'default'], [0, 1], 1500, type_annots='bare')
         n += run_family(ctx, 'ME_d2', 2, ['a', 'b', 'default', 'root'], [0, 1, 2], 1500)
         n += run_family(ctx, 'ME_d3_ad', 3, ['a', 'default'], [0], 1500)
         n += run_family(ctx, 'ME_d3_ab', 3, ['a', 'b'], [1], 1500, type_annots=True)
@@ -354,7 +371,7 @@ def run(ctx):
 def replay(ctx, rep):
     c = rep['case']
     T = tup(c['T'])
-    TYPE_ANNOTS[0] = bool(c.get('type_annots'))
+    TYPE_ANNOTS[0] = c.get('type_annots') if c.get('type_annots') == 'bare' else bool(c.get('type_annots'))
     tc = TypeCase(T, tup(c['tab']), [tup(j) for j in c['joins']])
     ok = check_listing(ctx, tc)
     if tc.cls is not None:
